@@ -113,7 +113,7 @@ theorem C19_pairs_above_threshold (old new : List FnEntry) (thr : Rat) (p : Pair
   · obtain ⟨_, _, _, _, _, hb'⟩ := mem_directOf.1 hp
     rw [hb] at hb'; cases hb'
   · obtain ⟨c, hc, h1, h2, h3, _⟩ := mem_fuzzyOf.1 hp
-    obtain ⟨o, w, ot, nt, g1, g2, g3, g4, g5, g6, g7⟩ := mem_candidates.1 ((chosenOf_spec _ _ thr).1 c hc)
+    obtain ⟨o, w, ot, nt, g1, g2, g3, g4, g5, g6, g7, _⟩ := mem_candidates.1 ((chosenOf_spec _ _ thr).1 c hc)
     rw [h1] at g1; rw [h2] at g2
     cases g1; cases g2
     exact ⟨h3 ▸ g7, ot, nt, g3, g4, h3 ▸ g6, g5⟩
@@ -138,8 +138,8 @@ theorem C19_rename_found (old new : List FnEntry) (thr : Rat) (ho : NodupShort o
     lookup_byName_eq_none.2 hwn, lookup_byName_of_nodup hn hwM⟩
   obtain ⟨i, hi⟩ := List.mem_iff_getElem?.1 hou
   obtain ⟨j, hj⟩ := List.mem_iff_getElem?.1 hwu
-  have hc : (⟨i, j, topoSimilarity ot nt⟩ : Cand) ∈ candidates uo un thr :=
-    mem_candidates.2 ⟨o, w, ot, nt, hi, hj, hot, hnt, hf, rfl, hs⟩
+  have hc : (⟨i, j, topoSimilarity ot nt, decide (o.fp = w.fp)⟩ : Cand) ∈ candidates uo un thr :=
+    mem_candidates.2 ⟨o, w, ot, nt, hi, hj, hot, hnt, hf, rfl, hs, rfl⟩
   obtain ⟨hsub, _, _, hmax⟩ := chosenOf_spec uo un thr
   -- every chosen candidate yields a pair
   have hpair : ∀ c ∈ chosenOf uo un thr, ∃ p ∈ fuzzyOf uo un (chosenOf uo un thr),
